@@ -170,300 +170,305 @@ def run(ctx):
     u = ctx.unit(repo_unit('Strings.cc'))
 
     # ---- R1
-    R = 'C08-R1'
-    joins = [f for f in w.funcs('phosg::join') if len(params_of(f)) == 2] + [f for f in u.funcs('phosg::join') if len(params_of(f)) == 2]
-    ctx.require(len(joins) >= 3, 'join instantiations not found (%d)' % len(joins))
-    seen = set()
-    for f in joins:
-        ta = tuple(targs(f))
-        if ta in seen:
-            continue
-        seen.add(ta)
-        lab = 'join<%s>' % ', '.join(t.replace('std::', '') for t in ta)
-        ctx.fn(lab)
-        check_no_goto(f)
-        body = body_of(f)
-        delim = params_of(f)[1]
-        rets = [x for x in walk(body) if x.get('kind') == 'ReturnStmt']
-        acc = None
-        for x in walk(rets[-1]):
-            if x.get('kind') == 'DeclRefExpr' and (x.get('referencedDecl') or {}).get('kind') == 'VarDecl':
-                acc = x['referencedDecl']
-        loops = [x for x in walk(body) if x.get('kind') == 'CXXForRangeStmt']
-        if acc is None or len(loops) != 1:
-            ctx.bad(R, lab + '|shape', f, 'join is not a single range-for accumulating into a local string')
-            continue
-        lb = loop_body(loops[0])
-        appends = [x for x in walk(lb) if x.get('kind') == 'CXXOperatorCallExpr' and call_name(x) == 'operator+=' and (ref_decl(x['inner'][1]) or {}).get('id') == acc['id']]
-        dapp = [a for a in appends if (ref_decl(a['inner'][2]) or {}).get('id') == delim['id'] or any((ref_decl(y) or {}).get('id') == delim['id'] for y in walk(a['inner'][2]))]
-        iapp = [a for a in appends if a not in dapp]
-        if len(dapp) != 1 or len(iapp) != 1:
-            ctx.bad(R, lab + '|shape', f, 'expected one delimiter append and one item append in the loop, found %d / %d' % (len(dapp), len(iapp)))
-            continue
-        facts = path_facts(dapp[0], stop=loops[0])
-        ment = set()
-        for ft in facts:
-            ment |= mentioned_keys(ft.cond)
-        uses_acc = acc['id'] in ment or any(str(k).startswith(acc['id']) for k in ment)
-        ctx.check(bool(facts) and not uses_acc, R, lab + '|delimiter-by-position', dapp[0], 'delimiter guarded by %s' % [canon(ft.cond) for ft in facts],
-                  'the delimiter is emitted depending on the accumulated output (%s): empty leading items lose their delimiter, so join(split(",a", \',\'), ",") != ",a"' % [canon(ft.cond) for ft in facts] if uses_acc else 'the delimiter append is unconditional or unguarded')
-        # the flag: initialised so that the first item gets no delimiter, flipped unconditionally in every iteration
-        flag_ok = False
-        why = 'position variable not recognised'
-        for ft in facts:
-            rd = ref_decl(ft.cond) or (ref_decl(strip(ft.cond)['inner'][0]) if strip(ft.cond).get('kind') == 'UnaryOperator' else None)
-            if rd and rd.get('kind') == 'VarDecl':
-                vd = w.by_id.get(rd['id']) or u.by_id.get(rd['id'])
-                init = int_value(kids(vd)[-1]) if vd is not None and kids(vd) else None
-                # value of the flag that suppresses the delimiter: facts say cond has polarity ft.pol for emission
-                asg = [x for x in walk(lb) if x.get('kind') == 'BinaryOperator' and x.get('opcode') == '=' and (ref_decl(x['inner'][0]) or {}).get('id') == rd['id']]
-                emits_when = None
-                for n_, pol in atoms([ft]):
-                    if (ref_decl(n_) or {}).get('id') == rd['id']:
-                        emits_when = 1 if pol else 0
-                if len(asg) == 1 and emits_when is not None and init is not None:
-                    top = strip(containing_statement(asg[0])) is asg[0] and containing_statement(asg[0]).get('_p') is lb
-                    after = asg[0].get('_off', 0) > dapp[0].get('_off', 0)
-                    flag_ok = init == 1 - emits_when and int_value(asg[0]['inner'][1]) == emits_when and top and after
-                    why = 'flag %s: init=%s, delimiter emitted when flag=%s, reassigned to %s, unconditional=%s, after the test=%s' % (rd.get('name'), init, emits_when, int_value(asg[0]['inner'][1]), top, after)
-            r = relation(ft.cond, ft.pol)
-            if r and ref_decl(r[0]) and int_value(r[2]) is not None:
-                flag_ok = True   # index comparison `i > 0` / `i != 0`
-                why = 'index comparison'
-        ctx.check(flag_ok, R, lab + '|first-item-flag', dapp[0], why, 'first-item tracking is wrong: %s' % why)
-        unc = strip(containing_statement(iapp[0])) is iapp[0] and containing_statement(iapp[0]).get('_p') is lb and iapp[0].get('_off', 0) > dapp[0].get('_off', 0)
-        ctx.check(unc, R, lab + '|item-appended', iapp[0], 'every item appended after its delimiter', 'the item append is conditional or precedes the delimiter')
-    bc = u.func('phosg::BlockStringWriter::close')[0]
-    calls = [c for c in walk(body_of(bc)) if c.get('kind') == 'CallExpr' and call_name(c) == 'join']
-    ctx.check(len(calls) == 1 and canon(call_args(calls[0])[0]) == 'this.blocks', R, 'BlockStringWriter::close|uses-join', bc, 'close() = join(blocks, separator)', 'BlockStringWriter::close does not delegate to join')
+    with ctx.section('C08-R1', 'C08'):
+        R = 'C08-R1'
+        joins = [f for f in w.funcs('phosg::join') if len(params_of(f)) == 2] + [f for f in u.funcs('phosg::join') if len(params_of(f)) == 2]
+        ctx.require(len(joins) >= 3, 'join instantiations not found (%d)' % len(joins))
+        seen = set()
+        for f in joins:
+            ta = tuple(targs(f))
+            if ta in seen:
+                continue
+            seen.add(ta)
+            lab = 'join<%s>' % ', '.join(t.replace('std::', '') for t in ta)
+            ctx.fn(lab)
+            check_no_goto(f)
+            body = body_of(f)
+            delim = params_of(f)[1]
+            rets = [x for x in walk(body) if x.get('kind') == 'ReturnStmt']
+            acc = None
+            for x in walk(rets[-1]):
+                if x.get('kind') == 'DeclRefExpr' and (x.get('referencedDecl') or {}).get('kind') == 'VarDecl':
+                    acc = x['referencedDecl']
+            loops = [x for x in walk(body) if x.get('kind') == 'CXXForRangeStmt']
+            if acc is None or len(loops) != 1:
+                ctx.bad(R, lab + '|shape', f, 'join is not a single range-for accumulating into a local string')
+                continue
+            lb = loop_body(loops[0])
+            appends = [x for x in walk(lb) if x.get('kind') == 'CXXOperatorCallExpr' and call_name(x) == 'operator+=' and (ref_decl(x['inner'][1]) or {}).get('id') == acc['id']]
+            dapp = [a for a in appends if (ref_decl(a['inner'][2]) or {}).get('id') == delim['id'] or any((ref_decl(y) or {}).get('id') == delim['id'] for y in walk(a['inner'][2]))]
+            iapp = [a for a in appends if a not in dapp]
+            if len(dapp) != 1 or len(iapp) != 1:
+                ctx.bad(R, lab + '|shape', f, 'expected one delimiter append and one item append in the loop, found %d / %d' % (len(dapp), len(iapp)))
+                continue
+            facts = path_facts(dapp[0], stop=loops[0])
+            ment = set()
+            for ft in facts:
+                ment |= mentioned_keys(ft.cond)
+            uses_acc = acc['id'] in ment or any(str(k).startswith(acc['id']) for k in ment)
+            ctx.check(bool(facts) and not uses_acc, R, lab + '|delimiter-by-position', dapp[0], 'delimiter guarded by %s' % [canon(ft.cond) for ft in facts],
+                      'the delimiter is emitted depending on the accumulated output (%s): empty leading items lose their delimiter, so join(split(",a", \',\'), ",") != ",a"' % [canon(ft.cond) for ft in facts] if uses_acc else 'the delimiter append is unconditional or unguarded')
+            # the flag: initialised so that the first item gets no delimiter, flipped unconditionally in every iteration
+            flag_ok = False
+            why = 'position variable not recognised'
+            for ft in facts:
+                rd = ref_decl(ft.cond) or (ref_decl(strip(ft.cond)['inner'][0]) if strip(ft.cond).get('kind') == 'UnaryOperator' else None)
+                if rd and rd.get('kind') == 'VarDecl':
+                    vd = w.by_id.get(rd['id']) or u.by_id.get(rd['id'])
+                    init = int_value(kids(vd)[-1]) if vd is not None and kids(vd) else None
+                    # value of the flag that suppresses the delimiter: facts say cond has polarity ft.pol for emission
+                    asg = [x for x in walk(lb) if x.get('kind') == 'BinaryOperator' and x.get('opcode') == '=' and (ref_decl(x['inner'][0]) or {}).get('id') == rd['id']]
+                    emits_when = None
+                    for n_, pol in atoms([ft]):
+                        if (ref_decl(n_) or {}).get('id') == rd['id']:
+                            emits_when = 1 if pol else 0
+                    if len(asg) == 1 and emits_when is not None and init is not None:
+                        top = strip(containing_statement(asg[0])) is asg[0] and containing_statement(asg[0]).get('_p') is lb
+                        after = asg[0].get('_off', 0) > dapp[0].get('_off', 0)
+                        flag_ok = init == 1 - emits_when and int_value(asg[0]['inner'][1]) == emits_when and top and after
+                        why = 'flag %s: init=%s, delimiter emitted when flag=%s, reassigned to %s, unconditional=%s, after the test=%s' % (rd.get('name'), init, emits_when, int_value(asg[0]['inner'][1]), top, after)
+                r = relation(ft.cond, ft.pol)
+                if r and ref_decl(r[0]) and int_value(r[2]) is not None:
+                    flag_ok = True   # index comparison `i > 0` / `i != 0`
+                    why = 'index comparison'
+            ctx.check(flag_ok, R, lab + '|first-item-flag', dapp[0], why, 'first-item tracking is wrong: %s' % why)
+            unc = strip(containing_statement(iapp[0])) is iapp[0] and containing_statement(iapp[0]).get('_p') is lb and iapp[0].get('_off', 0) > dapp[0].get('_off', 0)
+            ctx.check(unc, R, lab + '|item-appended', iapp[0], 'every item appended after its delimiter', 'the item append is conditional or precedes the delimiter')
+        bc = u.func('phosg::BlockStringWriter::close')[0]
+        calls = [c for c in walk(body_of(bc)) if c.get('kind') == 'CallExpr' and call_name(c) == 'join']
+        ctx.check(len(calls) == 1 and canon(call_args(calls[0])[0]) == 'this.blocks', R, 'BlockStringWriter::close|uses-join', bc, 'close() = join(blocks, separator)', 'BlockStringWriter::close does not delegate to join')
 
     # ---- R2
-    R = 'C08-R2'
-    sp = [f for f in u.funcs('phosg::split') if len(params_of(f)) == 3]
-    ctx.require(len(sp) == 2, 'split(string) / split(wstring) not found')
-    s_str = next(f for f in sp if 'wchar_t' not in (qtype(params_of(f)[1]) or ''))
-    s_w = next(f for f in sp if f is not s_str)
+    with ctx.section('C08-R2', 'C08'):
+        R = 'C08-R2'
+        sp = [f for f in u.funcs('phosg::split') if len(params_of(f)) == 3]
+        ctx.require(len(sp) == 2, 'split(string) / split(wstring) not found')
+        s_str = next(f for f in sp if 'wchar_t' not in (qtype(params_of(f)[1]) or ''))
+        s_w = next(f for f in sp if f is not s_str)
 
-    def impl_of(f):
-        """the function that holds the loop: f itself, or the shared template f forwards its arguments to"""
-        st = stmts_of(body_of(f))
-        if len(st) == 1 and st[0].get('kind') == 'ReturnStmt' and kids(st[0]):
-            c = next((x for x in walk(st[0]) if x.get('kind') == 'CallExpr'), None)
-            if c is not None:
-                d = callee_decl(c, u)
-                g = None
-                if d is not None:
-                    g = d if body_of(d) is not None else next((m for m in u.functions if m.get('mangledName') == d.get('mangledName') and body_of(m) is not None), None)
-                if g is not None and [(ref_decl(a_) or {}).get('id') for a_ in call_args(c)] == [p_['id'] for p_ in params_of(f)]:
-                    return g
-        return f
-    s_str, s_w = impl_of(s_str), impl_of(s_w)
-    a = [nf(s) for s in stmts_of(body_of(s_str)) if s.get('kind') != 'DeclStmt'] + [nf(kids(v)[-1]) for v in walk(body_of(s_str)) if v.get('kind') == 'VarDecl' and kids(v) and v.get('name')]
-    b = [nf(s) for s in stmts_of(body_of(s_w)) if s.get('kind') != 'DeclStmt'] + [nf(kids(v)[-1]) for v in walk(body_of(s_w)) if v.get('kind') == 'VarDecl' and kids(v) and v.get('name')]
-    sa = [canon(x) for x in walk(body_of(s_str)) if x.get('kind') in ('BinaryOperator', 'CXXMemberCallExpr', 'ConditionalOperator')]
-    sb = [canon(x) for x in walk(body_of(s_w)) if x.get('kind') in ('BinaryOperator', 'CXXMemberCallExpr', 'ConditionalOperator')]
-    ctx.check(sa == sb, R, 'split|string==wstring', s_w, 'identical modulo character type', 'split(wstring) differs from split(string): %s' % [p for p in zip(sa, sb) if p[0] != p[1]][:2])
-    for f, lab in ((s_str, 'split(string)'), (s_w, 'split(wstring)')):
-        ctx.fn(lab)
-        check_no_goto(f)
-        body = body_of(f)
-        loops = [x for x in walk(body) if x.get('kind') == 'WhileStmt']
-        ok = False
-        if len(loops) == 1:
-            cond, lb = while_parts(loops[0])
-            r = relation(cond, True)
-            ok = r is not None and canon(r[0]) == 'token_start_offset' and r[1] == '<=' and canon(r[2]) == 's.size()'
-        ctx.check(ok, R, lab + '|admits-trailing-empty', loops[0] if loops else f, 'loop runs while token_start <= size()', 'the loop stops at token_start == size(): a trailing delimiter no longer yields the final empty piece (piece count = delimiters + 1 breaks)')
-        dv = next((v for v in walk(body) if v.get('kind') == 'VarDecl' and v.get('name') == 'delim_offset'), None)
-        okd = False
-        if dv is not None and kids(dv):
-            e = strip(kids(dv)[-1])
-            if e.get('kind') == 'ConditionalOperator':
-                c_, a_, b_ = e['inner'][:3]
-                from guard import subst_locals
-                cc = subst_locals(nf(c_), c_).replace('(max_splits != 0)', 'max_splits').replace('(0 != max_splits)', 'max_splits')
-                while cc.startswith('((') and cc.endswith('))') and cc.count('(') == 2:
-                    cc = cc[1:-1]
-                okd = cc in ('(max_splits && (max_splits == ret.size()))', '(max_splits && (ret.size() == max_splits))') and 'npos' in canon(a_) and canon(b_) == 's.find(delim, token_start_offset)'
-        ctx.check(okd, R, lab + '|max_splits-stops-search', dv or f, 'when max_splits pieces exist the search is skipped and the rest becomes the last piece', 'max_splits does not stop the *search* (it must not drop or truncate the remainder)')
-        pushes = [c for c in walk(body) if c.get('kind') == 'CXXMemberCallExpr' and call_name(c) in ('emplace_back', 'push_back')]
-        tails = [c for c in pushes if call_args(c) and canon(call_args(c)[0]) == 's.substr(token_start_offset)']
-        mids = [c for c in pushes if call_args(c) and canon(call_args(c)[0]) == 's.substr(token_start_offset, (delim_offset - token_start_offset))']
-        okt = len(tails) == 1 and len(mids) == 1
-        if okt:
-            nxt = [s for s in preceding_statements(tails[0])]
-            blk = enclosing(tails[0], ('CompoundStmt',))
-            sts = list(kids(blk))
-            okt = sts and (sts[-1].get('kind') == 'BreakStmt' or (sts[-1].get('kind') == 'ReturnStmt' and any((y_.get('referencedDecl') or {}).get('name') == 'ret' for y_ in walk(sts[-1]) if y_.get('kind') == 'DeclRefExpr'))) and any(relation(n_, p_) and 'npos' in canon(relation(n_, p_)[2]) and relation(n_, p_)[1] == '==' for n_, p_ in atoms(path_facts(tails[0])))
-            adv = [x for x in walk(enclosing(mids[0], ('CompoundStmt',))) if x.get('kind') == 'BinaryOperator' and x.get('opcode') == '=' and canon(x['inner'][0]) == 'token_start_offset']
-            okt = okt and len(adv) == 1 and nf(adv[0]['inner'][1]) == '(1 + delim_offset)'
-        ctx.check(okt, R, lab + '|pieces', f, 'no delimiter found: push the rest and stop; found: push [start, delim) and continue at delim + 1', 'piece emission does not follow push-rest-and-break / push-[start,delim)-and-advance-by-one')
-    sc = u.func('phosg::split_context')[0]
-    ctx.fn('split_context')
-    check_no_goto(sc)
-    loops = [x for x in walk(body_of(sc)) if x.get('kind') == 'ForStmt']
-    after = [s for s in stmts_of(body_of(sc)) if loops and s.get('_off', 0) > loops[0].get('_off', 0)]
-    tail = [c for s in after for c in walk(s) if c.get('kind') == 'CXXMemberCallExpr' and call_name(c) in ('push_back', 'emplace_back') and canon(call_args(c)[0]) == 's.substr(last_start)']
-    okc = len(tail) == 1
-    if okc:
-        fs = path_facts(tail[0])
-        okc = all(nf(ft.cond) in ('(last_start <= z)',) and ft.pol for ft in fs)
-    ctx.check(okc, R, 'split_context|tail-pushed', tail[0] if tail else sc, 'the remainder after the last top-level delimiter is always pushed', 'split_context does not always push the final piece')
+        def impl_of(f):
+            """the function that holds the loop: f itself, or the shared template f forwards its arguments to"""
+            st = stmts_of(body_of(f))
+            if len(st) == 1 and st[0].get('kind') == 'ReturnStmt' and kids(st[0]):
+                c = next((x for x in walk(st[0]) if x.get('kind') == 'CallExpr'), None)
+                if c is not None:
+                    d = callee_decl(c, u)
+                    g = None
+                    if d is not None:
+                        g = d if body_of(d) is not None else next((m for m in u.functions if m.get('mangledName') == d.get('mangledName') and body_of(m) is not None), None)
+                    if g is not None and [(ref_decl(a_) or {}).get('id') for a_ in call_args(c)] == [p_['id'] for p_ in params_of(f)]:
+                        return g
+            return f
+        s_str, s_w = impl_of(s_str), impl_of(s_w)
+        a = [nf(s) for s in stmts_of(body_of(s_str)) if s.get('kind') != 'DeclStmt'] + [nf(kids(v)[-1]) for v in walk(body_of(s_str)) if v.get('kind') == 'VarDecl' and kids(v) and v.get('name')]
+        b = [nf(s) for s in stmts_of(body_of(s_w)) if s.get('kind') != 'DeclStmt'] + [nf(kids(v)[-1]) for v in walk(body_of(s_w)) if v.get('kind') == 'VarDecl' and kids(v) and v.get('name')]
+        sa = [canon(x) for x in walk(body_of(s_str)) if x.get('kind') in ('BinaryOperator', 'CXXMemberCallExpr', 'ConditionalOperator')]
+        sb = [canon(x) for x in walk(body_of(s_w)) if x.get('kind') in ('BinaryOperator', 'CXXMemberCallExpr', 'ConditionalOperator')]
+        ctx.check(sa == sb, R, 'split|string==wstring', s_w, 'identical modulo character type', 'split(wstring) differs from split(string): %s' % [p for p in zip(sa, sb) if p[0] != p[1]][:2])
+        for f, lab in ((s_str, 'split(string)'), (s_w, 'split(wstring)')):
+            ctx.fn(lab)
+            check_no_goto(f)
+            body = body_of(f)
+            loops = [x for x in walk(body) if x.get('kind') == 'WhileStmt']
+            ok = False
+            if len(loops) == 1:
+                cond, lb = while_parts(loops[0])
+                r = relation(cond, True)
+                ok = r is not None and canon(r[0]) == 'token_start_offset' and r[1] == '<=' and canon(r[2]) == 's.size()'
+            ctx.check(ok, R, lab + '|admits-trailing-empty', loops[0] if loops else f, 'loop runs while token_start <= size()', 'the loop stops at token_start == size(): a trailing delimiter no longer yields the final empty piece (piece count = delimiters + 1 breaks)')
+            dv = next((v for v in walk(body) if v.get('kind') == 'VarDecl' and v.get('name') == 'delim_offset'), None)
+            okd = False
+            if dv is not None and kids(dv):
+                e = strip(kids(dv)[-1])
+                if e.get('kind') == 'ConditionalOperator':
+                    c_, a_, b_ = e['inner'][:3]
+                    from guard import subst_locals
+                    cc = subst_locals(nf(c_), c_).replace('(max_splits != 0)', 'max_splits').replace('(0 != max_splits)', 'max_splits')
+                    while cc.startswith('((') and cc.endswith('))') and cc.count('(') == 2:
+                        cc = cc[1:-1]
+                    okd = cc in ('(max_splits && (max_splits == ret.size()))', '(max_splits && (ret.size() == max_splits))') and 'npos' in canon(a_) and canon(b_) == 's.find(delim, token_start_offset)'
+            ctx.check(okd, R, lab + '|max_splits-stops-search', dv or f, 'when max_splits pieces exist the search is skipped and the rest becomes the last piece', 'max_splits does not stop the *search* (it must not drop or truncate the remainder)')
+            pushes = [c for c in walk(body) if c.get('kind') == 'CXXMemberCallExpr' and call_name(c) in ('emplace_back', 'push_back')]
+            tails = [c for c in pushes if call_args(c) and canon(call_args(c)[0]) == 's.substr(token_start_offset)']
+            mids = [c for c in pushes if call_args(c) and canon(call_args(c)[0]) == 's.substr(token_start_offset, (delim_offset - token_start_offset))']
+            okt = len(tails) == 1 and len(mids) == 1
+            if okt:
+                nxt = [s for s in preceding_statements(tails[0])]
+                blk = enclosing(tails[0], ('CompoundStmt',))
+                sts = list(kids(blk))
+                okt = sts and (sts[-1].get('kind') == 'BreakStmt' or (sts[-1].get('kind') == 'ReturnStmt' and any((y_.get('referencedDecl') or {}).get('name') == 'ret' for y_ in walk(sts[-1]) if y_.get('kind') == 'DeclRefExpr'))) and any(relation(n_, p_) and 'npos' in canon(relation(n_, p_)[2]) and relation(n_, p_)[1] == '==' for n_, p_ in atoms(path_facts(tails[0])))
+                adv = [x for x in walk(enclosing(mids[0], ('CompoundStmt',))) if x.get('kind') == 'BinaryOperator' and x.get('opcode') == '=' and canon(x['inner'][0]) == 'token_start_offset']
+                okt = okt and len(adv) == 1 and nf(adv[0]['inner'][1]) == '(1 + delim_offset)'
+            ctx.check(okt, R, lab + '|pieces', f, 'no delimiter found: push the rest and stop; found: push [start, delim) and continue at delim + 1', 'piece emission does not follow push-rest-and-break / push-[start,delim)-and-advance-by-one')
+        sc = u.func('phosg::split_context')[0]
+        ctx.fn('split_context')
+        check_no_goto(sc)
+        loops = [x for x in walk(body_of(sc)) if x.get('kind') == 'ForStmt']
+        after = [s for s in stmts_of(body_of(sc)) if loops and s.get('_off', 0) > loops[0].get('_off', 0)]
+        tail = [c for s in after for c in walk(s) if c.get('kind') == 'CXXMemberCallExpr' and call_name(c) in ('push_back', 'emplace_back') and canon(call_args(c)[0]) == 's.substr(last_start)']
+        okc = len(tail) == 1
+        if okc:
+            fs = path_facts(tail[0])
+            okc = all(nf(ft.cond) in ('(last_start <= z)',) and ft.pol for ft in fs)
+        ctx.check(okc, R, 'split_context|tail-pushed', tail[0] if tail else sc, 'the remainder after the last top-level delimiter is always pushed', 'split_context does not always push the final piece')
 
     # ---- R3
-    R = 'C08-R3'
-    vp = u.func('phosg::string_vprintf')[0]
-    ctx.fn('string_vprintf')
-    body = body_of(vp)
-    arrays = [v for v in walk(body) if v.get('kind') == 'VarDecl' and '[' in (qtype(v) or '')]
-    if not arrays:
-        ctx.ok(R, 'string_vprintf|no-fixed-buffer', vp, 'no fixed-size buffer')
-    import re as _re
-    for arr in arrays:
-        # a stack fast path is sound only if its result is used when the formatted length is strictly below the buffer size
-        m = _re.search(r'\[(\d+)\]', qtype(arr) or '')
-        N = int(m.group(1)) if m else None
-        uses = [c for c in walk(body) if c.get('kind') in ('CXXConstructExpr', 'CXXTemporaryObjectExpr') and 'basic_string' in (dtype(c) or '') and kids(c) and (ref_decl(kids(c)[0]) or {}).get('id') == arr['id']]
-        fmt_calls = [c for c in walk(body) if c.get('kind') == 'CallExpr' and call_name(c) in ('vsnprintf', 'snprintf') and (ref_decl(call_args(c)[0]) or {}).get('id') == arr['id']]
-        good = N is not None and len(fmt_calls) == 1 and bool(uses)
-        why = 'fixed buffer %s is not used as a guarded vsnprintf fast path' % arr.get('name')
-        if good:
-            cap = int_value(call_args(fmt_calls[0])[1])
-            lenv = enclosing(fmt_calls[0], ('VarDecl',))
-            good = cap is not None and cap <= N and lenv is not None
-            why = 'vsnprintf capacity %s exceeds the buffer (%s) or its result is not kept' % (cap, N)
-            for c in uses if good else []:
-                rels = [(nf(r_[0]), r_[1], nf(r_[2])) for r_ in [relation(n_, p_) for n_, p_ in atoms(path_facts(c))] if r_]
-                nm = lenv.get('name')
-                fits = any((a_ == nm and ((op == '<' and b_ == str(N)) or (op == '<=' and b_ == str(N - 1)))) or (b_ == nm and ((op == '>' and a_ == str(N)) or (op == '>=' and a_ == str(N - 1)))) for a_, op, b_ in rels)
-                nonneg = any((a_ == nm and op in ('>=',) and b_ == '0') or (a_ == nm and op == '>' and b_ == '-1') or (b_ == nm and op == '<=' and a_ == '0') for a_, op, b_ in rels)
-                if not (fits and nonneg):
-                    good = False
-                    why = 'the stack-buffer result is used when the formatted length may be >= %d (facts: %s): a result of exactly %d bytes loses its last byte' % (N, rels, N)
-        ctx.check(good, R, 'string_vprintf|fixed-buffer-guarded|' + str(arr.get('name')), arr, 'stack fast path used only when 0 <= length < %s' % N, why)
-    bounded = [c for c in walk(body) if c.get('kind') == 'CallExpr' and call_name(c) in ('vsprintf', 'sprintf', 'strlen')]
-    ctx.check(not bounded, R, 'string_vprintf|no-unbounded-or-strlen', bounded[0] if bounded else vp, 'no sprintf/strlen', 'string_vprintf calls %s' % [call_name(c) for c in bounded])
-    va = [c for c in walk(body) if c.get('kind') == 'CallExpr' and call_name(c) == 'vasprintf']
-    okv = len(va) == 1
-    why = 'vasprintf not called exactly once'
-    if okv:
-        lenv = enclosing(va[0], ('VarDecl',))
-        a0 = strip(call_args(va[0])[0])
-        resv = ref_decl(a0['inner'][0]) if a0.get('kind') == 'UnaryOperator' and a0.get('opcode') == '&' else None
-        ctors = [c for c in walk(body) if c.get('kind') == 'CXXConstructExpr' and 'basic_string' in (dtype(c) or '') and len(kids(c)) >= 2]
-        ok_ct = [c for c in ctors if resv and lenv is not None and (ref_decl(kids(c)[0]) or {}).get('id') == resv.get('id') and (ref_decl(kids(c)[1]) or {}).get('id') == lenv.get('id')]
-        frees = [c for c in walk(body) if c.get('kind') == 'CallExpr' and call_name(c) == 'free' and resv and (ref_decl(call_args(c)[0]) or {}).get('id') == resv.get('id')]
-        okv = bool(ok_ct) and len(frees) == 1 and frees[0].get('_off', 0) > ok_ct[0].get('_off', 0)
-        why = 'result is not std::string(result, length) from vasprintf followed by free(result)'
-    ctx.check(okv, R, 'string_vprintf|pointer+length', va[0] if va else vp, 'string(result, length) then free(result)', why)
-    nullg = [t for t in walk(body) if t.get('kind') == 'CXXThrowExpr']
-    ctx.check(len(nullg) == 1 and 'bad_alloc' in (dtype(kids(nullg[0])[0]) or ''), R, 'string_vprintf|null-result', vp, 'null result -> bad_alloc', 'the vasprintf failure path changed')
-    spf = u.func('phosg::string_printf')[0]
-    names = [call_name(c) for c in walk(body_of(spf)) if c.get('kind') == 'CallExpr']
-    vs = [x for x in walk(body_of(spf)) if x.get('kind') in ('VAArgExpr',)]
-    seq = [n_ for n_ in names if n_ in ('__builtin_va_start', '__builtin_va_end', 'string_vprintf')]
-    ctx.check(seq == ['__builtin_va_start', 'string_vprintf', '__builtin_va_end'], R, 'string_printf|va-pairing', spf, 'va_start; string_vprintf; va_end', 'string_printf call sequence is %s' % seq)
+    with ctx.section('C08-R3', 'C08'):
+        R = 'C08-R3'
+        vp = u.func('phosg::string_vprintf')[0]
+        ctx.fn('string_vprintf')
+        body = body_of(vp)
+        arrays = [v for v in walk(body) if v.get('kind') == 'VarDecl' and '[' in (qtype(v) or '')]
+        if not arrays:
+            ctx.ok(R, 'string_vprintf|no-fixed-buffer', vp, 'no fixed-size buffer')
+        import re as _re
+        for arr in arrays:
+            # a stack fast path is sound only if its result is used when the formatted length is strictly below the buffer size
+            m = _re.search(r'\[(\d+)\]', qtype(arr) or '')
+            N = int(m.group(1)) if m else None
+            uses = [c for c in walk(body) if c.get('kind') in ('CXXConstructExpr', 'CXXTemporaryObjectExpr') and 'basic_string' in (dtype(c) or '') and kids(c) and (ref_decl(kids(c)[0]) or {}).get('id') == arr['id']]
+            fmt_calls = [c for c in walk(body) if c.get('kind') == 'CallExpr' and call_name(c) in ('vsnprintf', 'snprintf') and (ref_decl(call_args(c)[0]) or {}).get('id') == arr['id']]
+            good = N is not None and len(fmt_calls) == 1 and bool(uses)
+            why = 'fixed buffer %s is not used as a guarded vsnprintf fast path' % arr.get('name')
+            if good:
+                cap = int_value(call_args(fmt_calls[0])[1])
+                lenv = enclosing(fmt_calls[0], ('VarDecl',))
+                good = cap is not None and cap <= N and lenv is not None
+                why = 'vsnprintf capacity %s exceeds the buffer (%s) or its result is not kept' % (cap, N)
+                for c in uses if good else []:
+                    rels = [(nf(r_[0]), r_[1], nf(r_[2])) for r_ in [relation(n_, p_) for n_, p_ in atoms(path_facts(c))] if r_]
+                    nm = lenv.get('name')
+                    fits = any((a_ == nm and ((op == '<' and b_ == str(N)) or (op == '<=' and b_ == str(N - 1)))) or (b_ == nm and ((op == '>' and a_ == str(N)) or (op == '>=' and a_ == str(N - 1)))) for a_, op, b_ in rels)
+                    nonneg = any((a_ == nm and op in ('>=',) and b_ == '0') or (a_ == nm and op == '>' and b_ == '-1') or (b_ == nm and op == '<=' and a_ == '0') for a_, op, b_ in rels)
+                    if not (fits and nonneg):
+                        good = False
+                        why = 'the stack-buffer result is used when the formatted length may be >= %d (facts: %s): a result of exactly %d bytes loses its last byte' % (N, rels, N)
+            ctx.check(good, R, 'string_vprintf|fixed-buffer-guarded|' + str(arr.get('name')), arr, 'stack fast path used only when 0 <= length < %s' % N, why)
+        bounded = [c for c in walk(body) if c.get('kind') == 'CallExpr' and call_name(c) in ('vsprintf', 'sprintf', 'strlen')]
+        ctx.check(not bounded, R, 'string_vprintf|no-unbounded-or-strlen', bounded[0] if bounded else vp, 'no sprintf/strlen', 'string_vprintf calls %s' % [call_name(c) for c in bounded])
+        va = [c for c in walk(body) if c.get('kind') == 'CallExpr' and call_name(c) == 'vasprintf']
+        okv = len(va) == 1
+        why = 'vasprintf not called exactly once'
+        if okv:
+            lenv = enclosing(va[0], ('VarDecl',))
+            a0 = strip(call_args(va[0])[0])
+            resv = ref_decl(a0['inner'][0]) if a0.get('kind') == 'UnaryOperator' and a0.get('opcode') == '&' else None
+            ctors = [c for c in walk(body) if c.get('kind') == 'CXXConstructExpr' and 'basic_string' in (dtype(c) or '') and len(kids(c)) >= 2]
+            ok_ct = [c for c in ctors if resv and lenv is not None and (ref_decl(kids(c)[0]) or {}).get('id') == resv.get('id') and (ref_decl(kids(c)[1]) or {}).get('id') == lenv.get('id')]
+            frees = [c for c in walk(body) if c.get('kind') == 'CallExpr' and call_name(c) == 'free' and resv and (ref_decl(call_args(c)[0]) or {}).get('id') == resv.get('id')]
+            okv = bool(ok_ct) and len(frees) == 1 and frees[0].get('_off', 0) > ok_ct[0].get('_off', 0)
+            why = 'result is not std::string(result, length) from vasprintf followed by free(result)'
+        ctx.check(okv, R, 'string_vprintf|pointer+length', va[0] if va else vp, 'string(result, length) then free(result)', why)
+        nullg = [t for t in walk(body) if t.get('kind') == 'CXXThrowExpr']
+        ctx.check(len(nullg) == 1 and 'bad_alloc' in (dtype(kids(nullg[0])[0]) or ''), R, 'string_vprintf|null-result', vp, 'null result -> bad_alloc', 'the vasprintf failure path changed')
+        spf = u.func('phosg::string_printf')[0]
+        names = [call_name(c) for c in walk(body_of(spf)) if c.get('kind') == 'CallExpr']
+        vs = [x for x in walk(body_of(spf)) if x.get('kind') in ('VAArgExpr',)]
+        seq = [n_ for n_ in names if n_ in ('__builtin_va_start', '__builtin_va_end', 'string_vprintf')]
+        ctx.check(seq == ['__builtin_va_start', 'string_vprintf', '__builtin_va_end'], R, 'string_printf|va-pairing', spf, 'va_start; string_vprintf; va_end', 'string_printf call sequence is %s' % seq)
 
-    # a va_list may be consumed once per activation: a second formatter call needs its own va_copy
-    nva = 0
-    for f in u.functions:
-        if body_of(f) is None or f.get('name') not in ('string_vprintf', 'string_printf'):
-            continue   # scope: the narrow-string formatter the property names (wstring_vprintf / the colour escapes are not part of C08)
-        cons = va_list_consumptions(f)
-        for vid, sites in sorted(cons.items()):
-            nva += 1
-            clash = None
-            for i, a in enumerate(sites):
-                for b in sites[i:]:
-                    if may_follow(a, b):
-                        clash = (a, b)
+        # a va_list may be consumed once per activation: a second formatter call needs its own va_copy
+        nva = 0
+        for f in u.functions:
+            if body_of(f) is None or f.get('name') not in ('string_vprintf', 'string_printf'):
+                continue   # scope: the narrow-string formatter the property names (wstring_vprintf / the colour escapes are not part of C08)
+            cons = va_list_consumptions(f)
+            for vid, sites in sorted(cons.items()):
+                nva += 1
+                clash = None
+                for i, a in enumerate(sites):
+                    for b in sites[i:]:
+                        if may_follow(a, b):
+                            clash = (a, b)
+                            break
+                    if clash:
                         break
-                if clash:
-                    break
-            nmv = (u.by_id.get(vid) or {}).get('name', '?')
-            ctx.check(clash is None, R, '%s|va_list-consumed-once|%s' % (f.get('name'), nmv), clash[1] if clash else f, '%d use(s) of the va_list, at most one per path' % len(sites),
-                      '`%s` is consumed by `%s` and may then be consumed again by `%s` without a va_copy: the second formatter reads indeterminate arguments' % (nmv, src_text(clash[0], 50) if clash else '', src_text(clash[1], 50) if clash else ''))
-    ctx.require(nva >= 2, 'va_list consumers string_vprintf / string_printf not found')
+                nmv = (u.by_id.get(vid) or {}).get('name', '?')
+                ctx.check(clash is None, R, '%s|va_list-consumed-once|%s' % (f.get('name'), nmv), clash[1] if clash else f, '%d use(s) of the va_list, at most one per path' % len(sites),
+                          '`%s` is consumed by `%s` and may then be consumed again by `%s` without a va_copy: the second formatter reads indeterminate arguments' % (nmv, src_text(clash[0], 50) if clash else '', src_text(clash[1], 50) if clash else ''))
+        ctx.require(nva >= 2, 'va_list consumers string_vprintf / string_printf not found')
 
     # ---- R4
-    R = 'C08-R4'
-    thrower = {'split_args': u, 'split_context': u}
-    for nm in ('split_args', 'split_context'):
-        f = u.func('phosg::' + nm)[0]
-        ts = [t for t in walk(body_of(f)) if t.get('kind') == 'CXXThrowExpr']
-        ctx.check(ts and all('runtime_error' in (dtype(kids(t)[0]) or '') for t in ts), R, nm + '|throws-runtime_error', f, '%d throw site(s), all runtime_error' % len(ts), '%s throws %s' % (nm, [dtype(kids(t)[0]) for t in ts if kids(t)]))
-    smc = w.func('phosg::strip_multiline_comments')[0]
-    ts = [t for t in walk(body_of(smc)) if t.get('kind') == 'CXXThrowExpr']
-    ctx.check(len(ts) == 1 and 'runtime_error' in (dtype(kids(ts[0])[0]) or ''), R, 'strip_multiline_comments|throws-runtime_error', smc, 'one throw, runtime_error', 'strip_multiline_comments throw sites changed')
-    quiet = [('phosg::split', u), ('phosg::starts_with', u), ('phosg::ends_with', u), ('phosg::toupper', u), ('phosg::tolower', u), ('phosg::str_replace_all', u),
-             ('phosg::skip_whitespace', u), ('phosg::skip_non_whitespace', u), ('phosg::skip_word', u), ('phosg::join', w), ('phosg::strip_whitespace', w),
-             ('phosg::strip_trailing_whitespace', w), ('phosg::strip_leading_whitespace', w), ('phosg::strip_trailing_zeroes', w)]
-    for q, unit in quiet:
-        fs = unit.func(q)
-        ts = [t for f in fs for t in walk(body_of(f)) if t.get('kind') == 'CXXThrowExpr']
-        ctx.check(not ts, R, q.split('::')[-1] + '|no-throw', ts[0] if ts else fs[0], 'contains no throw', '%s now throws (%s): the helpers are total' % (q, src_text(ts[0], 60) if ts else ''))
-    sra = u.func('phosg::str_replace_all')[0]
-    # after a match the cursor moves just past it (never by less: an empty advance would loop); with no
-    # match it moves to the end or the loop is left.  Names are not assumed: the cursor is the start
-    # argument of the find() call, the match position is whatever holds find()'s result.
-    from guard import subst_locals as _sl
-    finds = [c for c in walk(body_of(sra)) if c.get('kind') == 'CXXMemberCallExpr' and call_name(c) == 'find' and len(call_args(c)) >= 2]
-    if len(finds) != 1 or ref_decl(call_args(finds[0])[1]) is None:
-        ctx.undecided(R, 'str_replace_all|progress', sra, 'str_replace_all is not built around one s.find(target, cursor, n) call')
-    else:
-        fc = finds[0]
-        cur = ref_decl(call_args(fc)[1])
-        hv = enclosing(fc, ('VarDecl',))
-        mname = hv.get('name') if hv is not None else None
-        tlen = _sl(nf(call_args(fc)[2]), fc) if len(call_args(fc)) > 2 else None
-        asgs = [x for x in walk(body_of(sra)) if x.get('kind') == 'BinaryOperator' and x.get('opcode') == '=' and (ref_decl(x['inner'][0]) or {}).get('id') == cur['id']]
-        past, other = [], []
-        for x in asgs:
-            rhs = strip(x['inner'][1])
-            ok_ = False
-            if rhs.get('kind') == 'BinaryOperator' and rhs.get('opcode') == '+' and mname and tlen:
-                ops_ = [(canon(o_), _sl(nf(o_), x)) for o_ in rhs['inner']]
-                ok_ = any(a_[0] == mname and b_[1] == tlen for a_, b_ in (ops_, ops_[::-1]))
-            (past if ok_ else other).append(x)
-        end_ok = all(_sl(nf(x['inner'][1]), x) in ('s.size()', 's.length()') for x in other)
-        ctx.check(len(past) >= 1 and end_ok and tlen not in (None, '0'), R, 'str_replace_all|progress', sra, 'the cursor moves to the end (or the loop is left) or to match + target length',
-                  'the cursor %s of str_replace_all is assigned %s: after a match it must move to (match position + %s)' % (cur.get('name'), [nf(x['inner'][1]) for x in asgs], tlen))
-    # starts_with / ends_with compare positions
-    for nm, want in (('starts_with', '0'), ('ends_with', '(s.length() - end.length())')):
-        f = u.func('phosg::' + nm)[0]
-        cs = [c for c in walk(body_of(f)) if c.get('kind') == 'CXXMemberCallExpr' and call_name(c) == 'compare']
-        ok = len(cs) == 1 and nf(call_args(cs[0])[0]) == want
-        if ok:
-            rels = [(nf(r_[0]), r_[1], nf(r_[2])) for r_ in [relation(n_, p_) for n_, p_ in atoms(path_facts(cs[0]))] if r_]
-            other = 'start' if nm == 'starts_with' else 'end'
-            ok = any((a_ == 's.length()' and op in ('>=',) and b_ == other + '.length()') or (b_ == 's.length()' and op == '<=' and a_ == other + '.length()') for a_, op, b_ in rels)
-        ctx.check(ok, R, nm + '|guarded-compare', f, 'compare at %s under s.length() >= affix length' % want, '%s compares at the wrong position or without the length guard' % nm)
+    with ctx.section('C08-R4', 'C08'):
+        R = 'C08-R4'
+        thrower = {'split_args': u, 'split_context': u}
+        for nm in ('split_args', 'split_context'):
+            f = u.func('phosg::' + nm)[0]
+            ts = [t for t in walk(body_of(f)) if t.get('kind') == 'CXXThrowExpr']
+            ctx.check(ts and all('runtime_error' in (dtype(kids(t)[0]) or '') for t in ts), R, nm + '|throws-runtime_error', f, '%d throw site(s), all runtime_error' % len(ts), '%s throws %s' % (nm, [dtype(kids(t)[0]) for t in ts if kids(t)]))
+        smc = w.func('phosg::strip_multiline_comments')[0]
+        ts = [t for t in walk(body_of(smc)) if t.get('kind') == 'CXXThrowExpr']
+        ctx.check(len(ts) == 1 and 'runtime_error' in (dtype(kids(ts[0])[0]) or ''), R, 'strip_multiline_comments|throws-runtime_error', smc, 'one throw, runtime_error', 'strip_multiline_comments throw sites changed')
+        quiet = [('phosg::split', u), ('phosg::starts_with', u), ('phosg::ends_with', u), ('phosg::toupper', u), ('phosg::tolower', u), ('phosg::str_replace_all', u),
+                 ('phosg::skip_whitespace', u), ('phosg::skip_non_whitespace', u), ('phosg::skip_word', u), ('phosg::join', w), ('phosg::strip_whitespace', w),
+                 ('phosg::strip_trailing_whitespace', w), ('phosg::strip_leading_whitespace', w), ('phosg::strip_trailing_zeroes', w)]
+        for q, unit in quiet:
+            fs = unit.func(q)
+            ts = [t for f in fs for t in walk(body_of(f)) if t.get('kind') == 'CXXThrowExpr']
+            ctx.check(not ts, R, q.split('::')[-1] + '|no-throw', ts[0] if ts else fs[0], 'contains no throw', '%s now throws (%s): the helpers are total' % (q, src_text(ts[0], 60) if ts else ''))
+        sra = u.func('phosg::str_replace_all')[0]
+        # after a match the cursor moves just past it (never by less: an empty advance would loop); with no
+        # match it moves to the end or the loop is left.  Names are not assumed: the cursor is the start
+        # argument of the find() call, the match position is whatever holds find()'s result.
+        from guard import subst_locals as _sl
+        finds = [c for c in walk(body_of(sra)) if c.get('kind') == 'CXXMemberCallExpr' and call_name(c) == 'find' and len(call_args(c)) >= 2]
+        if len(finds) != 1 or ref_decl(call_args(finds[0])[1]) is None:
+            ctx.undecided(R, 'str_replace_all|progress', sra, 'str_replace_all is not built around one s.find(target, cursor, n) call')
+        else:
+            fc = finds[0]
+            cur = ref_decl(call_args(fc)[1])
+            hv = enclosing(fc, ('VarDecl',))
+            mname = hv.get('name') if hv is not None else None
+            tlen = _sl(nf(call_args(fc)[2]), fc) if len(call_args(fc)) > 2 else None
+            asgs = [x for x in walk(body_of(sra)) if x.get('kind') == 'BinaryOperator' and x.get('opcode') == '=' and (ref_decl(x['inner'][0]) or {}).get('id') == cur['id']]
+            past, other = [], []
+            for x in asgs:
+                rhs = strip(x['inner'][1])
+                ok_ = False
+                if rhs.get('kind') == 'BinaryOperator' and rhs.get('opcode') == '+' and mname and tlen:
+                    ops_ = [(canon(o_), _sl(nf(o_), x)) for o_ in rhs['inner']]
+                    ok_ = any(a_[0] == mname and b_[1] == tlen for a_, b_ in (ops_, ops_[::-1]))
+                (past if ok_ else other).append(x)
+            end_ok = all(_sl(nf(x['inner'][1]), x) in ('s.size()', 's.length()') for x in other)
+            ctx.check(len(past) >= 1 and end_ok and tlen not in (None, '0'), R, 'str_replace_all|progress', sra, 'the cursor moves to the end (or the loop is left) or to match + target length',
+                      'the cursor %s of str_replace_all is assigned %s: after a match it must move to (match position + %s)' % (cur.get('name'), [nf(x['inner'][1]) for x in asgs], tlen))
+        # starts_with / ends_with compare positions
+        for nm, want in (('starts_with', '0'), ('ends_with', '(s.length() - end.length())')):
+            f = u.func('phosg::' + nm)[0]
+            cs = [c for c in walk(body_of(f)) if c.get('kind') == 'CXXMemberCallExpr' and call_name(c) == 'compare']
+            ok = len(cs) == 1 and nf(call_args(cs[0])[0]) == want
+            if ok:
+                rels = [(nf(r_[0]), r_[1], nf(r_[2])) for r_ in [relation(n_, p_) for n_, p_ in atoms(path_facts(cs[0]))] if r_]
+                other = 'start' if nm == 'starts_with' else 'end'
+                ok = any((a_ == 's.length()' and op in ('>=',) and b_ == other + '.length()') or (b_ == 's.length()' and op == '<=' and a_ == other + '.length()') for a_, op, b_ in rels)
+            ctx.check(ok, R, nm + '|guarded-compare', f, 'compare at %s under s.length() >= affix length' % want, '%s compares at the wrong position or without the length guard' % nm)
 
     # ---- R5
-    R = 'C08-R5'
-    decided = split_context_transitions(ctx, u, sc, R)
-    if not decided:
-        for nm in ('split_context',):
-            f = u.func('phosg::' + nm)[0]
-            back = [x for x in walk(body_of(f)) if x.get('kind') in ('ArraySubscriptExpr', 'CXXOperatorCallExpr') and 'z - 1' in canon(x) and canon(x).startswith('s[')]
-            ctx.check(not back, R, nm + '|no-look-behind', back[0] if back else f, 'no test of the previous character', 'escape detection looks at the previous character (%s): an escaped backslash before a quote is misread as escaping the quote' % (canon(back[0]) if back else ''))
-        esc = next((v for v in walk(body_of(sc)) if v.get('kind') == 'VarDecl' and dtype(v) == 'bool' and 'escap' in (v.get('name') or '')), None)
-        oke = False
-        why = 'no escape-state variable'
-        if esc is not None:
-            asg = [x for x in walk(body_of(sc)) if x.get('kind') == 'BinaryOperator' and x.get('opcode') == '=' and (ref_decl(x['inner'][0]) or {}).get('id') == esc['id']]
-            sets = [x for x in asg if int_value(x['inner'][1]) == 1]
-            clears = [x for x in asg if int_value(x['inner'][1]) == 0]
-            why = 'state variable %s: %d set / %d clear sites' % (esc['name'], len(sets), len(clears))
-            if len(sets) == 1 and len(clears) == 1 and int_value(kids(esc)[-1]) == 0:
-                fs_set = [(nf(n_), p_) for n_, p_ in atoms(path_facts(sets[0]))]
-                fs_clr = [(nf(n_), p_) for n_, p_ in atoms(path_facts(clears[0]))]
-                set_ok = (esc['name'], False) in fs_set and any(n_.startswith('(92 == s[z]') or n_.startswith('(s[z] == 92') for n_, p_ in fs_set if p_) and ('in_quoted_string', True) in fs_set
-                clr_ok = (esc['name'], True) in fs_clr
-                closes = [c for c in walk(body_of(sc)) if c.get('kind') == 'CXXMemberCallExpr' and call_name(c) == 'pop_back']
-                close_ok = len(closes) == 1 and (esc['name'], False) in [(nf(n_), p_) for n_, p_ in atoms(path_facts(closes[0]))]
-                oke = set_ok and clr_ok and close_ok
-                why += '; set under (!escaped, in quotes, backslash)=%s, cleared under escaped=%s, closing bracket only when not escaped=%s' % (set_ok, clr_ok, close_ok)
-        ctx.check(oke, R, 'split_context|escape-state', esc or sc, why, 'escape tracking in split_context is not the stateful scheme: ' + why)
-    check_split_args_quotes(ctx, u, R)
+    with ctx.section('C08-R5', 'C08'):
+        R = 'C08-R5'
+        decided = split_context_transitions(ctx, u, sc, R)
+        if not decided:
+            for nm in ('split_context',):
+                f = u.func('phosg::' + nm)[0]
+                back = [x for x in walk(body_of(f)) if x.get('kind') in ('ArraySubscriptExpr', 'CXXOperatorCallExpr') and 'z - 1' in canon(x) and canon(x).startswith('s[')]
+                ctx.check(not back, R, nm + '|no-look-behind', back[0] if back else f, 'no test of the previous character', 'escape detection looks at the previous character (%s): an escaped backslash before a quote is misread as escaping the quote' % (canon(back[0]) if back else ''))
+            esc = next((v for v in walk(body_of(sc)) if v.get('kind') == 'VarDecl' and dtype(v) == 'bool' and 'escap' in (v.get('name') or '')), None)
+            oke = False
+            why = 'no escape-state variable'
+            if esc is not None:
+                asg = [x for x in walk(body_of(sc)) if x.get('kind') == 'BinaryOperator' and x.get('opcode') == '=' and (ref_decl(x['inner'][0]) or {}).get('id') == esc['id']]
+                sets = [x for x in asg if int_value(x['inner'][1]) == 1]
+                clears = [x for x in asg if int_value(x['inner'][1]) == 0]
+                why = 'state variable %s: %d set / %d clear sites' % (esc['name'], len(sets), len(clears))
+                if len(sets) == 1 and len(clears) == 1 and int_value(kids(esc)[-1]) == 0:
+                    fs_set = [(nf(n_), p_) for n_, p_ in atoms(path_facts(sets[0]))]
+                    fs_clr = [(nf(n_), p_) for n_, p_ in atoms(path_facts(clears[0]))]
+                    set_ok = (esc['name'], False) in fs_set and any(n_.startswith('(92 == s[z]') or n_.startswith('(s[z] == 92') for n_, p_ in fs_set if p_) and ('in_quoted_string', True) in fs_set
+                    clr_ok = (esc['name'], True) in fs_clr
+                    closes = [c for c in walk(body_of(sc)) if c.get('kind') == 'CXXMemberCallExpr' and call_name(c) == 'pop_back']
+                    close_ok = len(closes) == 1 and (esc['name'], False) in [(nf(n_), p_) for n_, p_ in atoms(path_facts(closes[0]))]
+                    oke = set_ok and clr_ok and close_ok
+                    why += '; set under (!escaped, in quotes, backslash)=%s, cleared under escaped=%s, closing bracket only when not escaped=%s' % (set_ok, clr_ok, close_ok)
+            ctx.check(oke, R, 'split_context|escape-state', esc or sc, why, 'escape tracking in split_context is not the stateful scheme: ' + why)
+        check_split_args_quotes(ctx, u, R)
     ctx.note('Not decided: the algebraic laws as such (piece count, no delimiter inside pieces, trim/replace/case equality with reference definitions).')
